@@ -430,7 +430,7 @@ func runDriverChunk(c *core.Ctx, drv, base string, scripts []*tqScript) tqRunRes
 		enc.Encode(s)
 	}
 	f.Close()
-	cmd := exec.Command(drv, "tq", sf, base+".trace", base+".api", base+".results")
+	cmd := driverCmd(c, drv, "tq", sf, base+".trace", base+".api", base+".results")
 	cmd.Dir = c.Work
 	var se strings.Builder
 	cmd.Stderr = &se
